@@ -3,6 +3,7 @@ package props
 import (
 	"fmt"
 	"go/ast"
+	"go/constant"
 	"go/token"
 	"go/types"
 	"sort"
@@ -18,6 +19,8 @@ func c17(p *core.Program, r *core.Report) {
 	r.Rule("R1", "first-arrival safety: in every reduce closure handed to executor.mapReduce, the accumulator parameter (nil when the first shard result arrives, whichever shard that is) is type-asserted only in comma-ok form or under a nil test; the value mapReduce returns (nil when no shard answered or on error) is asserted the same way or after the error check")
 	r.Rule("R2", "order-independent value reducers: every ValCount method of shape (other ValCount) ValCount is abstractly executed for every weak ordering of {vc.Val, other.Val, vc.Count, other.Count, 0} (counts >= 0); the result as an abstract value must equal the result with the two operands exchanged, and when both operands hold the same value with positive counts the returned count must be the sum of both")
 	r.Rule("R3", "single ownership function: executor.shardsByNode decides placement only through cluster.shardNodes/ShardNodes (shared with C20)")
+	r.Rule("R4", "candidates are cut only after the exact recount: in executeTopN the only truncation to n applies to the list returned by the second, ids-restricted executeTopNShards call made by the original caller; a node answering a remote leg returns its whole merged candidate list (cutting it there makes the candidate set depend on which node coordinates and how shards are grouped onto nodes)")
+	c17TopN(p, r)
 	r.NotDecided = "associativity of RowIDs.merge / mergeGroupCounts under limit, retry re-mapping after node failure, TopN tie order"
 	pk := p.Pkg("")
 	if pk == nil {
@@ -409,4 +412,112 @@ func orEmpty(s string) string {
 		return "0"
 	}
 	return s
+}
+
+// c17TopN: R4.
+func c17TopN(p *core.Program, r *core.Report) {
+	pk := p.Pkg("")
+	info := pk.TypesInfo
+	fd := core.FuncDecl(pk, "executor", "executeTopN")
+	construct := "(*executor).executeTopN truncation"
+	if fd == nil {
+		r.Undecide("R4", construct, "", "not found")
+		return
+	}
+	// the call parameter (the original query) and the n argument
+	var callParam, nObj types.Object
+	for _, fld := range fd.Type.Params.List {
+		for _, nm := range fld.Names {
+			if o := info.Defs[nm]; o != nil && core.IsNamed(o.Type(), core.ModPath+"/pql", "Call") {
+				callParam = o
+			}
+		}
+	}
+	ast.Inspect(fd.Body, func(n ast.Node) bool {
+		as, ok := n.(*ast.AssignStmt)
+		if !ok || len(as.Rhs) != 1 || len(as.Lhs) < 1 {
+			return true
+		}
+		if c, ok := ast.Unparen(as.Rhs[0]).(*ast.CallExpr); ok {
+			if fn := core.CalleeOf(info, c); fn != nil && fn.Name() == "UintArg" && len(c.Args) == 1 {
+				if tv, ok := info.Types[c.Args[0]]; ok && tv.Value != nil && constant.StringVal(tv.Value) == "n" {
+					if id, ok := as.Lhs[0].(*ast.Ident); ok {
+						nObj = info.ObjectOf(id)
+					}
+				}
+			}
+		}
+		return true
+	})
+	if callParam == nil || nObj == nil {
+		r.Undecide("R4", construct, p.Pos(fd.Pos()), "call parameter or n argument not recognised")
+		return
+	}
+	// variables assigned from executeTopNShards, and whether the call they came from is the original one
+	fromOriginal := map[types.Object]bool{}
+	fromRefetch := map[types.Object]bool{}
+	ast.Inspect(fd.Body, func(n ast.Node) bool {
+		as, ok := n.(*ast.AssignStmt)
+		if !ok || len(as.Rhs) != 1 || len(as.Lhs) < 1 {
+			return true
+		}
+		c, ok := ast.Unparen(as.Rhs[0]).(*ast.CallExpr)
+		if !ok {
+			return true
+		}
+		fn := core.CalleeOf(info, c)
+		if fn == nil || fn.Name() != "executeTopNShards" || len(c.Args) < 3 {
+			return true
+		}
+		id, ok := as.Lhs[0].(*ast.Ident)
+		if !ok {
+			return true
+		}
+		if aid, ok := ast.Unparen(c.Args[2]).(*ast.Ident); ok && info.ObjectOf(aid) == callParam {
+			fromOriginal[info.ObjectOf(id)] = true
+		} else {
+			fromRefetch[info.ObjectOf(id)] = true
+		}
+		return true
+	})
+	var bad []string
+	nCuts := 0
+	mentionsN := func(e ast.Expr) bool {
+		hit := false
+		if e == nil {
+			return false
+		}
+		ast.Inspect(e, func(m ast.Node) bool {
+			if id, ok := m.(*ast.Ident); ok && info.ObjectOf(id) == nObj {
+				hit = true
+			}
+			return true
+		})
+		return hit
+	}
+	ast.Inspect(fd.Body, func(n ast.Node) bool {
+		se, ok := n.(*ast.SliceExpr)
+		if !ok || !mentionsN(se.High) {
+			return true
+		}
+		nCuts++
+		id, ok := ast.Unparen(se.X).(*ast.Ident)
+		if !ok {
+			bad = append(bad, p.Pos(se.Pos())+": "+types.ExprString(se))
+			return true
+		}
+		o := info.ObjectOf(id)
+		if !fromRefetch[o] || fromOriginal[o] {
+			bad = append(bad, p.Pos(se.Pos())+": "+types.ExprString(se)+" cuts the first-pass candidate list")
+		}
+		return true
+	})
+	switch {
+	case len(bad) > 0:
+		r.Violate("R4", construct, p.Pos(fd.Pos()), strings.Join(bad, "; ")+" -- a row with the highest cluster-wide count can drop out depending on the coordinator")
+	case nCuts == 0 || len(fromRefetch) == 0:
+		r.Violate("R4", construct, p.Pos(fd.Pos()), "no truncation of the recounted list found (the two-pass shape is gone)")
+	default:
+		r.HoldAt("R4", construct, p.Pos(fd.Pos()), fmt.Sprintf("%d truncation(s) to n, each of the recounted list", nCuts))
+	}
 }
